@@ -347,6 +347,36 @@ pub fn run(ctx: &Ctx) {
             judge_cuts(&fields, c[2] == 1, true, loc);
         }));
     }
+    // one multi-byte character at every byte offset of a string field (block-wise validators)
+    {
+        let mut cases: Vec<(usize, usize)> = vec![]; // (ascii length, offset)
+        let n0 = ctx.tier.pick(1200usize, 9000usize);
+        for o in 0..=n0 {
+            cases.push((n0, o));
+        }
+        let n1 = 65_400usize;
+        let mut k = 1024usize;
+        while k < n1 {
+            for d in 0..9usize {
+                cases.push((n1, k + d - 4));
+            }
+            k += 1024;
+        }
+        let chars = ['é', '€', '😀'];
+        let sp = Space::new(&[cases.len(), chars.len(), 2]);
+        let s2 = sp.clone();
+        let cases = &cases;
+        ctx.run_family(Family::new("c13.char_positions", sp.size(), format!("[uint8, string, uint16] where the string is ASCII text with one 2-, 3- or 4-byte character at EVERY byte offset 0..={} and at the 9 offsets around every multiple of 1024 of a 65400-byte string x both byte orders; exact payload, trailing bytes, truncations around the field boundaries", n0), move |i, loc| {
+            let c = s2.coords(i);
+            let (n, o) = cases[c[0]];
+            let mut t = String::with_capacity(n + 4);
+            t.push_str(&"a".repeat(o));
+            t.push(chars[c[1]]);
+            t.push_str(&"b".repeat(n - o));
+            let fields = vec![Field::Val(RefKind::Uint(1), RefValue::U(7, 1)), Field::Val(RefKind::Str, RefValue::Str(t)), Field::Val(RefKind::Uint(2), RefValue::U(0x0102, 2))];
+            judge_cuts(&fields, c[2] == 1, true, loc);
+        }));
+    }
     // value sweep: bit-level coverage of every numeric kind, at an even and at an odd offset
     {
         let args: Vec<Field> = crate::universe::value_sweep_args(ctx.tier).into_iter().filter(|a| !is_fixp(a.kind)).map(|a| Field::Val(a.kind, a.value)).collect();
